@@ -88,13 +88,34 @@ def replay_concrete(contract, name, conc):
             "detail": detail + f"real code outcome: {outcome}; clause `{clause}` -> {holds}"}
 
 
+def append_grid(name):
+    """no model from the solver: the real Packet.append on a small grid of
+    calls (addresses and counters that include 0), first failing one wins"""
+    from contracts import c11_packet as S
+    from ebpfcat.ethercat import ECCmd
+    last = None
+    for address in ((3, 0), (0, 0), (0, 0x10), (7, 0x130), (0,), (0x10000,)):
+        for wkc in (0, 1):
+            for data in (b"", b"ab"):
+                conc = {"self": {"data": [], "size": 16, "goff": [16]}, "cmd": ECCmd.FPRD, "data": data, "idx": 0,
+                        "address": address, "wkc": wkc}
+                last = replay_concrete(S.append, name, conc)
+                if last["reproduced"]:
+                    return last
+    return {"inputs": "grid of 24 calls", "reproduced": None,
+            "detail": "no call of the grid fails natively; " + (last or {}).get("detail", "")}
+
+
 def run(tier, seed):
     from contracts import c11_packet as S
     rep = R.Report("C11", tier, seed)
     for a in lib.ASSUMED:
         rep.assume(a)
     for c in (S.append, S.full, S.assemble):
-        api.verify(c, rep, replay=lambda n, i, nt, c=c: replay_clause(c, n, i, nt))
+        rp = lambda n, i, nt, c=c: replay_clause(c, n, i, nt)      # noqa: E731
+        if c is S.append:
+            rp.fallback = append_grid
+        api.verify(c, rep, replay=rp)
     # the last clause of the property: the sterile copy (SterilePacket.sterile
     # relative to the assembled frame; append_writer records exactly the
     # accepted write datagrams)
